@@ -394,6 +394,19 @@ fn check_mapping_empty(
 
     let diff_idx = v_p_idx.diff(&v_n_idx)?;
     if !diff_idx.is_empty(ctx)? {
+        // An index signature over an infinite key type stands for as many keys as needed: `current_neg` is
+        // escaped by one more key holding a value of `diff`, which leaves the other keys free to escape the
+        // remaining negatives ({[k: string]: A | B} is not covered by {[k: string]: A} | {[k: string]: B}).
+        let unbounded_keys = pos
+            .indexed_properties
+            .as_ref()
+            .is_some_and(|idx| !is_finite_string_set(&idx.key));
+        if unbounded_keys {
+            if !check_mapping_empty(pos.clone(), rest_negs, ctx, is_map)? {
+                return Ok(false);
+            }
+            return Ok(true);
+        }
         let mut new_pos = (*pos).clone();
         // Update indexed_properties value
         // We need to preserve the key type of pos
